@@ -170,14 +170,26 @@ func c14Cases() []c14Case {
 	return out
 }
 
-func c14RoundTrip() *Scenario { return c14RoundTripX(false) }
+func c14RoundTrip() *Scenario { return c14RoundTripM(false, "call") }
+
+func c14RoundTripX(selfCancel bool) *Scenario { return c14RoundTripM(selfCancel, "call") }
 
 // selfCancel: the handler's own request context has already been cancelled on the server side
 // (CancelRequest for its id) when it returns: what it returns is still what the caller must get.
-func c14RoundTripX(selfCancel bool) *Scenario {
+//
+// mode "call": one Client.Call per case. mode "batch": the case is member 0, 1 or 2 of a batch of three
+// whose other members succeed (the caller looks at that member's Response). mode "callback": the other
+// direction - the client's OnCallback handler returns the case and Server.Callback is the caller.
+func c14RoundTripM(selfCancel bool, mode string) *Scenario {
 	name := "handler errors and results through a real Server/Client pair"
 	if selfCancel {
 		name += " (request cancelled on the server before the handler returns)"
+	}
+	if mode == "batch" {
+		name += " (as member 0, 1 or 2 of a batch of three)"
+	}
+	if mode == "callback" {
+		name += " (callback direction: OnCallback handler to Server.Callback)"
 	}
 	return &Scenario{
 		Name:   name,
@@ -196,11 +208,15 @@ func c14RoundTripX(selfCancel bool) *Scenario {
 				got := make([]error, len(chunk))
 				gotRsp := make([]bool, len(chunk))
 				returned := make([]bool, len(chunk))
+				unmOK := make([]bool, len(chunk)) // batch mode: UnmarshalResult succeeded on a member that carries an error
 				x := vs.Run(nil, func() {
 					cch, sch := channel.Direct()
 					idx := 0
 					hd := func(ctx context.Context, req *jrpc2.Request) (any, error) {
 						c := chunk[idx]
+						if req.Method() == "ok" {
+							return "fine", nil
+						}
 						if selfCancel {
 							jrpc2.ServerFromContext(ctx).CancelRequest(req.ID())
 						}
@@ -209,12 +225,40 @@ func c14RoundTripX(selfCancel bool) *Scenario {
 						}
 						return nil, c.Err
 					}
-					srv := jrpc2.NewServer(anyAssigner{hd}, nil).Start(sch)
-					cli := jrpc2.NewClient(cch, nil)
+					srv := jrpc2.NewServer(anyAssigner{hd}, &jrpc2.ServerOptions{AllowPush: mode == "callback", Concurrency: 3}).Start(sch)
+					cli := jrpc2.NewClient(cch, &jrpc2.ClientOptions{OnCallback: func(ctx context.Context, req *jrpc2.Request) (any, error) {
+						c := chunk[idx]
+						if c.IsValue {
+							return c.Result, nil
+						}
+						return nil, c.Err
+					}})
 					for i := range chunk {
 						idx = i
-						rsp, err := cli.Call(context.Background(), "m", nil)
-						got[i], gotRsp[i], returned[i] = err, rsp != nil, true
+						switch mode {
+						case "batch":
+							pos := i % 3
+							specs := []jrpc2.Spec{{Method: "ok"}, {Method: "ok"}, {Method: "ok"}}
+							specs[pos].Method = "m"
+							rsps, err := cli.Batch(context.Background(), specs)
+							returned[i] = true
+							if err != nil || len(rsps) != 3 {
+								got[i] = fmt.Errorf("Batch failed: %v (%d responses)", err, len(rsps))
+								continue
+							}
+							gotRsp[i] = true
+							if e := rsps[pos].Error(); e != nil {
+								got[i] = e
+								var raw json.RawMessage
+								unmOK[i] = rsps[pos].UnmarshalResult(&raw) == nil
+							}
+						case "callback":
+							rsp, err := srv.Callback(context.Background(), "cb", nil)
+							got[i], gotRsp[i], returned[i] = err, rsp != nil, true
+						default:
+							rsp, err := cli.Call(context.Background(), "m", nil)
+							got[i], gotRsp[i], returned[i] = err, rsp != nil, true
+						}
 					}
 					cli.Close()
 					srv.WaitStatus()
@@ -230,6 +274,9 @@ func c14RoundTripX(selfCancel bool) *Scenario {
 						continue
 					}
 					cerr := got[i]
+					if unmOK[i] {
+						r.Fail("C14.R1", c.Desc, "the batch member carries an error, but Response.UnmarshalResult reported success", "")
+					}
 					if c.IsValue {
 						Hit("C14.R4")
 						r.Case("unmarshalable", true)
@@ -272,7 +319,7 @@ func c14RoundTripX(selfCancel bool) *Scenario {
 							}
 						}
 					}
-					if want == jrpc2.Cancelled || want == jrpc2.DeadlineExceeded {
+					if (want == jrpc2.Cancelled || want == jrpc2.DeadlineExceeded) && mode == "call" {
 						Hit("C14.R3")
 						sentinel := context.Canceled
 						if want == jrpc2.DeadlineExceeded {
@@ -418,7 +465,7 @@ func c14WithData() *Scenario {
 }
 
 func c14Scenarios(tier string) []*Scenario {
-	out := []*Scenario{c14RoundTrip(), c14RoundTripX(true), c14WithData()}
+	out := []*Scenario{c14RoundTrip(), c14RoundTripX(true), c14RoundTripM(false, "batch"), c14RoundTripM(false, "callback"), c14WithData()}
 	if tier == "quick" {
 		out = append(out,
 			c14CodeRange(-70000, 70000, "all c in [-70000, 70000]"),
